@@ -23,7 +23,9 @@ CLAIMED['C01'] = dict(
     text='Decides with Z3 over the real MIR of the interpreter ops (C01.K1/K2): for every pair of operand values (all 2^64 number '
          'bit patterns, bool, nil, every object kind) each arithmetic / comparison / equality / logic op produces the IEEE or '
          'string result of left-op-right or ends in the documented RuntimeError, and each jump op moves ip and the stack exactly '
-         'as the source rule prescribes for every 16-bit distance. Front-end fidelity (text to AST) and the composition into '
+         'as the source rule prescribes for every 16-bit distance. C01.C2 the real Compiler::assign / assign_binary / send with opaque operand '
+         'expressions and every left-hand-side shape (<= 2 trailers): each operand expression is lowered exactly once (known finding F55: '
+         '`a[i] op= v` lowers i twice, so a side-effecting index runs twice). Front-end fidelity (text to AST) and the composition into '
          'program output are outside the claim.',
     note='Trusted: rustc MIR printer, mirsym, abstract object identities (vmabs.py), Z3 FP theory. Fiber stack primitives, '
          'Value methods, is_falsey are executed from MIR, not modelled.',
@@ -123,9 +125,10 @@ CLAIMED['C13'] = dict(
          'table. The clause about classes collected and re-created at the same address is decided as a reachability fact: every class '
          'and method an entry names is kept alive by the Vm\'s roots (C05.K1.roots_vm / trace_inline_cache), so an address named by an '
          'entry cannot be handed to another class (found and fixed F46: the caches were not traced, a stale entry was hit after a '
-         'collection - segmentation fault on the gc_stress build).',
-    note='Trusted: rustc MIR printer, mirsym, abstract object identities, call summary at resolve_call, Z3. Assumes class tables '
-         'are immutable once instances exist and slot ids are in range (C19).',
+         'collection - segmentation fault on the gc_stress build). C13.K1.property_slots_in_bounds: every field slot an entry or a compile-time '
+         'slot names is inside the instance it is applied to, with instance length uninterpreted (found and fixed F53: a class extended '
+         'after instances existed indexed past the instance).',
+    note='Trusted: rustc MIR printer, mirsym, abstract object identities, call summary at resolve_call, Z3. Slot ids in range: C19.K1.',
     ref='§4 C13')
 
 CLAIMED['C03'] = dict(
@@ -134,7 +137,8 @@ CLAIMED['C03'] = dict(
          'with exactly its parent\'s methods (the initialiser included) and fields at unchanged indices, inherits init unless it has '
          'its own, add_method / add_field update exactly the named entry and number new fields after the existing ones; C03.K3 the '
          'real lowering functions assign / assign_binary / send hand a class (hence a compile-time field slot) to '
-         'property_get / property_set only when the receiver is self itself. Invoke == get-then-call on the VM side and the '
+         'property_get / property_set only when the receiver is self itself; C03.K2 reading or writing a property the class does not declare '
+         'ends in the documented error for every receiver (found and fixed F49). Invoke == get-then-call on the VM side and the '
          'property ops are decided under C13.K1 (cached vs first execution) and C06.K1. Static methods / metaclasses and bound '
          'method values are not yet machine checked.',
     note='Trusted: rustc MIR printer, mirsym, hash maps as association lists with distinct keys, abstract identities, Z3.',
@@ -165,7 +169,7 @@ CLAIMED['C05'] = dict(
          'marked object, releases nothing twice, sweeps only after the context and every temporary root were traced, roots the '
          'newborn object and leaves no intern entry pointing at a released string. Fields that are redundant by a stated invariant '
          '(iterator `current` mirrored in Enumerator.current, error classes, Class.init, Vm.builtin / global_module / current_fun) '
-         'are listed as assumptions, not checked; the inline caches, first assumed weak, are now required to be traced (F46). Not decided: the element loops of the managed containers\' own '
+         'are listed as assumptions, not checked; the inline caches, first assumed weak, are now required to be traced (F46); C05.K1.roots_compiler does the same for the roots the compiler holds while it allocates. Not decided: the element loops of the managed containers\' own '
          'traces (Array, UniqueVector, RawSharedVector), `dyn` natives and enumerators (listed as not encoded in the evidence), and the '
          'composition into "same output under every collection schedule". C05.K3 temporary-root discipline: every native of laythe_lib '
          '(the C16.K4 sweep, about 115 of 123 decided) and every `impl Enumerate::next` runs from MIR with every call observed; on each '
@@ -247,7 +251,8 @@ CLAIMED['C19'] = dict(
          'Vm::stack_unwind with the fiber unwind summarised: an error nobody handles is printed and reported, and the run queue, '
          'packages, module cache and inline caches that carry a session from one entry to the next are untouched; plus the capture '
          'chain obligation C02.K2 (symbols of earlier entries referenced from nested functions). Found and fixed F11 (slot ids '
-         'restarted per entry: wrong method dispatched or out-of-bounds cache read at the prompt). Repl-mode name resolution in the '
+         'restarted per entry: wrong method dispatched or out-of-bounds cache read at the prompt) and F52 (caches were indexed by module id '
+         'assuming ids are consecutive per Vm: a module imported from a second package at the prompt read another module\'s cache). Repl-mode name resolution in the '
          'resolver and the read-compile-run loop itself are not yet machine checked.',
     note='Trusted: rustc MIR printer, mirsym, summaries of Parser::parse / Resolver::resolve / Compiler::compile (the compiler hands out '
          'consecutive ids from the emitter state it was created with), Z3.',
@@ -278,7 +283,9 @@ CLAIMED['C18'] = dict(
          'frames already recorded by an earlier stage of the same unwind: the backtrace holds one position per frame from the '
          'raising frame down to the handler frame, earlier entries (the true raise sites) are kept and newly covered frames are '
          'appended innermost first; C18.K2 call_native: exit(n) ends the run with exactly n in both native environments, an error '
-         'raised by a native becomes the fiber\'s current error; the import instructions end the run with a failing status when a '
+         'raised by a native becomes the fiber\'s current error; run_fun hands exit / error / deadlock signals of a nested run to its caller '
+         'for every mode (found and fixed F48: a deadlock inside a nested run had no error object and panicked); print_error is total over '
+         'any backtrace; native frames are named in the trace; the line table the positions come from has one entry per line (C15.K2); the import instructions end the run with a failing status when a '
          'module does not compile (C17.K2, found and fixed F20); the unwinding target itself is C04.K2 and one line-table entry '
          'per code byte is C06.K1. The text of the traceback (print_error, frame_line formatting, line lookup) and the final '
          'ExecutionResult to process status mapping in Vm::run / main.rs are not machine checked.',
@@ -287,16 +294,24 @@ CLAIMED['C18'] = dict(
     ref='§4 C18')
 
 CLAIMED['C15'] = dict(
-    text='Partial: decides with Z3 over the real MIR only the size-limit kernels of the front end, not its totality over arbitrary text. '
-         'C15.K1 Compiler::emit_byte for an instruction on any source line never panics and records exact 1-based lines while they fit '
-         'the u16 line table; peephole_compile (optimise, stack analysis, label resolution, encoding, packaging; each stage summarised '
-         'by an arbitrary result) answers with a function or diagnostics for any number of jump labels and has no panicking path of '
-         'its own; the capture limit is exercised in C02.K2. Found and fixed F13 (line 65536 overflowed the line number) and F12 '
-         '(todo!() for more than 65535 labels). Scanner / parser / resolver totality over every Unicode string, recursion depth and '
-         'the interactive prompt surviving diagnostics are NOT decided: Kani cannot build the scanner (compiler ICE on '
-         'Scanner::identifier_type) and a character-level encoding for mirsym is not built yet.',
-    note='Trusted: rustc MIR printer, mirsym, stage summaries (peephole_optimize C12, apply_stack_effects C04/C06, encoder C06), Z3. '
-         'Debug-profile MIR (overflow checks on); the release build wraps where the debug build panics.',
+    text='Partial: decides with Z3 over the real MIR bounded kernels of the front end, not its totality over arbitrary text. '
+         'C15.K2 the scanner (Scanner::new + scan_token to Eof, all of scanner.rs from MIR, characters symbolic over every Unicode '
+         'scalar value, byte offsets as sums of UTF-8 widths): for 14 fixed prefixes (empty, string, escape, unicode escape, '
+         'interpolation, single quote, numbers, identifier, @, /, comment) followed by up to 2 (quick) / 2-3 (thorough) arbitrary '
+         'characters there is no panic, every slice is taken at a character boundary, token spans lie inside the text, the scanner '
+         'makes progress and the line table has one entry per line on texts without error tokens '
+         '(no scanner defect found on the pinned tree; seeded scanner defects are caught, DESIGN.md B.5). C15.K1 Compiler::emit_byte for an instruction on any source line never panics and '
+         'records exact 1-based lines while they fit the u16 line table; peephole_compile (each stage summarised by an arbitrary '
+         'result) answers with a function or diagnostics for any number of jump labels; one iteration of the Drop-run loop of the '
+         'peephole pass from an arbitrary counter keeps the u8 counter in range (found and fixed F54: 256 locals in a block '
+         'panicked the compiler instead of printing the too-many-locals diagnostic). C15.K3 Compiler::child starts every nested '
+         'function body outside any loop (found and fixed F51: `break` inside a function literal inside a loop compiled to a jump '
+         'out of the function and crashed the Vm). Found and fixed F13 (line 65536) and F12 (todo!() for > 65535 labels). Parser / '
+         'resolver totality, recursion depth on deeply nested text and the interactive prompt surviving diagnostics are NOT decided '
+         '(longer texts than the stated prefixes + K characters are outside the claim).',
+    note='Trusted: rustc MIR printer, mirsym, models of the std character iterators and string slicing on the symbolic text '
+         '(slicing off a boundary is a panic, as in Rust), stage summaries (peephole_optimize C12, apply_stack_effects C04/C06, '
+         'encoder C06), Z3. Debug-profile MIR (overflow checks on); the release build wraps where the debug build panics.',
     ref='§4 C15')
 
 NOT_APPLICABLE = {
